@@ -1,4 +1,5 @@
 """C11: executes the constructor cases enumerated by spec/MCCtor.tla."""
+from decwire import excname
 import warnings
 
 import sysloss.components as C
@@ -129,7 +130,7 @@ def run_case(st, cid):
         try:
             comp = getattr(C, kind)("X", **{k: (dict(v) if isinstance(v, dict) else v) for k, v in kw.items()})
         except Exception as e:
-            case["outcome"] = type(e).__name__
+            case["outcome"] = excname(e)
     if comp is not None:
         for k, v in kw.items():
             if isinstance(v, (int, float)) and not isinstance(v, bool) and k in comp._params \
